@@ -1,8 +1,8 @@
 INIT Init
 NEXT Next
 CONSTANTS
-  MaxFrames = 3
+  MaxFrames = 2
   EmitCases = TRUE
-  Extended = FALSE
+  Extended = TRUE
 INVARIANT Emit
 CHECK_DEADLOCK FALSE
